@@ -71,8 +71,8 @@ theorem resolve_datasheet_sem (lib : Lib) (row : String → Cell) (ord : String 
     labelling of the WHOLE original circuit that is consistent outside the library cells and gives every instance its
     datasheet function (`CellDatasheet`: every connected output pin `k` carries `datasheet family pins [k]` of the values on the
     input pins); **(2)** conversely every such labelling of the original circuit restricts/extends to a consistent labelling of
-    the result.  The success of the model (`resolveCells … = some h'`) follows from `resolveGenOKB` (`resolve_isSome_of_genOK`,
-    Props/C10Library.lean) and is kept as a hypothesis only to name `h'`. -/
+    the result.  The success of the model (`resolveCells … = some h'`) is CONTAINED in `resolveGenOKB` by its definition (it runs
+    `substitute` along the loop; `resolveGenOKB_unfold`, Props/C10Library.lean) and is kept as a hypothesis only to name `h'`. -/
 theorem resolve_datasheet_sem_general (lib : Lib) (row : String → Cell) (ord : String → List Nat) (h h' : NNet)
     (hw : h.wfNoTrail = true) (hok : resolveGenOKB lib h.keys h = true) (he : resolveCells lib h = some h')
     (hcert : ∀ c, c < h.net.nodes.size → (lib.find (h.net.node c).kind).isSome = true → InstCert lib row ord h c) :
